@@ -111,7 +111,12 @@ def main(tier):
                     # one more row, all zero: the packed payloads coincide, the tensors do not
                     w = prod(tr)
                     pairs.append({"a": {"bits": bits, "shape": [R] + tr, "data": d1}, "b": {"bits": bits, "shape": [R + 1] + tr, "data": d1 + [0] * w}})
-    r = ck.impl("c04", {"cases": cases + mal, "bytes": bytecases, "pairs": pairs}, timeout=1500)
+    # payloads beyond 2**20 bytes (vectors and matrices; generated inside the worker from a seed)
+    big = [{"seed": ck.seed + 1, "bits": 4, "shape": [2 ** 21 + 2 ** 19 + 3]}, {"seed": ck.seed + 2, "bits": 2, "shape": [2 ** 22 + 2 ** 20 + 5]},
+           {"seed": ck.seed + 3, "bits": 4, "shape": [2051, 1031]}, {"seed": ck.seed + 4, "bits": 2, "shape": [4099, 3, 347]}]
+    if tier == "thorough":
+        big += [{"seed": ck.seed + 5, "bits": 2, "shape": [12000001]}, {"seed": ck.seed + 6, "bits": 4, "shape": [1, 2 ** 21 + 7]}, {"seed": ck.seed + 7, "bits": 4, "shape": [2 ** 21 + 9, 1]}]
+    r = ck.impl("c04", {"cases": cases + mal, "bytes": bytecases, "pairs": pairs, "big": big}, timeout=1500)
     if r.get("crashed"):
         ck.violation("implementation worker crashed on the C04 case set (rc=%s): %s" % (r.get("rc"), r.get("stderr", "")[-300:]), {"cases": "whole C04 set", "stderr": r.get("stderr")})
         ck.finish("coqc (Gen, Tie, Props/C04.v)")
@@ -165,6 +170,17 @@ def main(tier):
                               ("payload_kept_after_unpacked_update", "modifying an unpacked tensor in place changed the packed payload / a later unpack")):
                 if h.get(key) is False:
                     ck.violation(f"{what} (bits={c['bits']}, shape={c['shape']})", {"case": c, "history": h})
+    for o in r.get("big", []):
+        ck.count("big tensor", f"{o['bits']} bits {o['shape']}")
+        ck.case(("big", o["bits"], tuple(o["shape"])), nontrivial=True)
+        if "exn" in o:
+            ck.violation(f"packing / unpacking a large tensor raised {o['exn']} (bits={o['bits']}, shape={o['shape']})", {"case": o})
+            continue
+        for key, what in (("payload_rows_ok", "payload does not have ceil(rows*bits/8) rows"), ("unpack_ext_on", "pack/unpack round trip differs (extensions on)"),
+                          ("unpack_ext_off", "pack/unpack round trip differs (extensions off)"), ("py_is_definition", "the Python unpack kernel differs from the shift / mask / concatenate definition"),
+                          ("ext_is_definition", "the C++ unpack kernel differs from the shift / mask / concatenate definition")):
+            if o.get(key) is False:
+                ck.violation(f"{what} on a large tensor (bits={o['bits']}, shape={o['shape']})", {"case": o})
     for pc, o in zip(pairs, r.get("pairs", [])):
         ck.case(("pair", pc["a"]["bits"], tuple(pc["a"]["shape"]), tuple(pc["b"]["shape"]), tuple(pc["a"]["data"]), tuple(pc["b"]["data"])), nontrivial=True)
         if "exn" in o:
